@@ -182,4 +182,15 @@ def check(inp):
         want2 = closed_form(prior, data, rows2, inp)
         if not np.allclose(ll2, want2, rtol=rtol, atol=1e-6):
             bad("equals-the-analytic-gaussian-marginal-after-a-column-was-replaced[call-history]", got=ll2, want=want2, cfg=inp)
+        # ... and after an IN-PLACE edit of a live column (no item assignment on the samples object is involved)
+        samples["e"][::2] = 0.0
+        ll3 = joker.marginal_ln_likelihood(data, samples, in_memory=True)
+        rows3 = rows2.copy()
+        rows3[:, 1] = np.asarray(samples["e"])
+        want3 = closed_form(prior, data, rows3, inp)
+        if not np.allclose(ll3, want3, rtol=rtol, atol=1e-6):
+            bad("equals-the-analytic-gaussian-marginal-after-a-column-was-edited-in-place[call-history]", got=ll3, want=want3, cfg=inp)
+        # ... and evaluating does not modify the samples it is given
+        if not np.allclose(samples["P"].to_value(u.day), rows3[:, 0], rtol=1e-13) or not np.array_equal(np.asarray(samples["e"]), rows3[:, 1]):
+            bad("the-given-samples-are-left-unchanged[call-history]")
     return fails
